@@ -17,6 +17,8 @@ mod gcd;
 mod inv_mod;
 mod mul;
 mod mul_mod;
+#[cfg(crypto_bigint_verif)]
+pub(crate) use mul_mod::verif_boxed_mac_by_limb;
 mod neg;
 mod neg_mod;
 mod shl;
